@@ -4,6 +4,7 @@
 
 from __future__ import annotations
 
+import threading
 from typing import TYPE_CHECKING, Annotated, Final, final, overload
 
 from .calendars._badi_year_month_day_calculator import _BadiYearMonthDayCalculator
@@ -267,6 +268,7 @@ class CalendarSystem(metaclass=_CalendarSystemMeta):
 
     # While we could implement some of these as auto-props, it probably adds more confusion than convenience.
     __CALENDAR_BY_ORDINAL: Final[dict[_CalendarOrdinal, CalendarSystem]] = {}
+    __CALENDAR_LOCK: Final[threading.Lock] = threading.Lock()
 
     __ID_ORDINAL_MAP: Final[dict[str, _CalendarOrdinal]] = {
         __BADI_ID: _CalendarOrdinal.BADI,
@@ -475,8 +477,9 @@ class CalendarSystem(metaclass=_CalendarSystemMeta):
             era_calculator = _SingleEraCalculator._ctor(era=single_era, ymd_calculator=year_month_day_calculator)
 
         self.__era_calculator = era_calculator
-        self.__CALENDAR_BY_ORDINAL[ordinal] = self
-        return self
+        # Another thread may have registered this ordinal while we were constructing: there must be one instance per id.
+        with cls.__CALENDAR_LOCK:
+            return cls.__CALENDAR_BY_ORDINAL.setdefault(ordinal, self)
 
     @property
     def id(self) -> str:
